@@ -8,11 +8,11 @@ HOOKS = {
     'add_only': True,
 }
 ENGINES = [
-    {'name': 'rqharness', 'path': 'harness/', 'serves_properties': ['C02', 'C03', 'C04', 'C07', 'C20'],
+    {'name': 'rqharness', 'path': 'harness/', 'serves_properties': ['C02', 'C03', 'C04', 'C05', 'C06', 'C07', 'C08', 'C09', 'C10', 'C11', 'C12', 'C13', 'C14', 'C15', 'C16', 'C17', 'C18', 'C19', 'C20'],
      'kind_free_text': 'Rust binary calling the real libpatch / rapidquilt code in-process on generated cases; prints one protocol line per case'},
-    {'name': 'rqmodel', 'path': 'lean/Main.lean', 'serves_properties': ['C02', 'C03', 'C04', 'C07', 'C20'],
+    {'name': 'rqmodel', 'path': 'lean/Main.lean', 'serves_properties': ['C02', 'C03', 'C04', 'C05', 'C06', 'C07', 'C08', 'C09', 'C10', 'C11', 'C12', 'C13', 'C14', 'C15', 'C16', 'C17', 'C18', 'C19', 'C20'],
      'kind_free_text': 'compiled Lean driver: runs the executable model and the specifications on the same protocol lines'},
-    {'name': 'RQ (Lean library)', 'path': 'lean/RQ/', 'serves_properties': ['C02', 'C03', 'C04', 'C07', 'C20'],
+    {'name': 'RQ (Lean library)', 'path': 'lean/RQ/', 'serves_properties': ['C02', 'C03', 'C04', 'C05', 'C06', 'C07', 'C08', 'C09', 'C10', 'C11', 'C12', 'C13', 'C14', 'C15', 'C16', 'C17', 'C18', 'C19', 'C20'],
      'kind_free_text': 'Lean 4 model (RQ/Model), specifications (RQ/Spec), lemmas (RQ/Lemmas), property theorems (RQ/Props/Cnn.lean)'},
 ]
 NOTES = ('Technique: machine-checked proof in Lean 4 of theorems about a hand-written executable model, tied to /repo by a '
@@ -70,3 +70,46 @@ META = {
                 'that apply_patches feeds exactly (old,new) / single names and dispatches by old-or-new name is part of the parallel driver model (C06).',
     },
 }
+
+PUSH_NOTE = ('Trusted: Lean kernel; that RQ/Model/{Push,FS,Path,Series,Parse,Write,Apply}.lean are the code (checked on every run: the real '
+             'cmd::run is executed in-process on generated workspaces, 1-3 consecutive invocations, and exit status + whole resulting tree '
+             '(paths, bytes, modes, directories, .pc, *.rej) must equal the model\'s and RQ.Spec.pushSpec\'s); the abstract file system stands '
+             'for the kernel (lexical paths, no symlinks); std::path/getopts/HashMap order/BufWriter modelled; diagnostics rendering, '
+             'statistics and colours not modelled.')
+
+def _push(pid, technique, text, extra_note=''):
+    META[pid] = {'engine': 'rqharness push (+ path/series/parse where listed) + rqmodel', 'design_ref': 'DESIGN.md section 5 ' + pid,
+                 'technique': technique, 'text': text, 'note': PUSH_NOTE + extra_note}
+
+_push('C10', 'Lean 4 proof (dry run returns the world unchanged incl. operation trace; same application loop decides the exit) + differential correspondence with full metadata snapshots',
+      'Theorems C10_no_write (for every workspace and option set the model performs no file-system operation under --dry-run) and '
+      'applyLoop_dry_same_final (same number of applied patches as a real run). Every generated --dry-run invocation of the real tool must '
+      'leave paths, bytes, modes, inodes, mtime, ctime untouched and report the model\'s exit status.')
+_push('C17', 'Lean 4 proof (case analysis of the plan function; error of the application loop leaves the world untouched) + differential correspondence on mutated quilt state',
+      'Theorems: every refusal condition of the property (applied-patches differs from / is longer than the series, goal unknown, goal already '
+      'applied, series unreadable, missing or unparseable patch before any failure) gives exit 1 with the world unchanged, no panic. Checked on '
+      'workspaces with mutated .pc/applied-patches, goals and broken patch files: exit and tree = pushSpec = model, never exit 101.')
+_push('C19', 'Lean 4 proof (keys have only plain components; unsafe names have no key and the file patch is refused before any access) + differential correspondence with a sentinel directory',
+      'Theorems C19_key_below / C19_unsafe / C19_refuse / C19_patch_refused for all names and strip levels. The real tool is run on patches with '
+      'absolute names, .. before/after the strip point, quoted escapes, on either side, at strip 0-2: nothing above the working directory may '
+      'change and exit/tree must equal the model\'s (refusal).', ' Symlinks inside the tree are outside the lexical model.')
+_push('C15', 'Lean 4 proof (invariant over all file-system operations of the driver: in-place writes only hit fresh inodes) + hard-link twin check on the real tool',
+      'Theorem C15_old_inodes_intact: after any push (no injected fault) every pre-existing file object still reachable has the same path, '
+      'bytes and mode; all changed files, rejects and backups are fresh inodes; only .pc/applied-patches is appended in place. Real runs: twins '
+      'created with hard links keep bytes and mode; set of re-created inodes = model\'s.')
+_push('C16', 'Lean 4 proof (byte-level model of Path::components / strip: stripPath n = drop n components; series-line contract; choose) + differential correspondence (series, path, push engines)',
+      'Theorems C16_strip_components (for all names and n), C16_comment_ignored, C16_default_strip, C16_choose_is_name, C16_choose_old_iff. '
+      'read_series_file and std::path are compared with their models on every run; whole pushes (incl. split pushes, files created/deleted '
+      'earlier in the run, .orig-style differing names) must equal pushSpec.')
+META['C11'] = {'engine': 'rqharness parse + series + push(evil) + rqmodel', 'design_ref': 'DESIGN.md section 5 C11',
+    'technique': 'Lean 4 proof (fuel of every parser loop is never exhausted; invariants of parsed patches; no NoMatch escapes) + differential correspondence with catch_unwind on boundary inputs',
+    'text': 'Theorems C11_fuel, C11_noMatch, C11_wf, C11_alloc about the byte-level model of parser.rs for all byte strings. The real parser, series '
+            'reader and whole tool are run on line sequences with boundary numbers (2^63, 2^64-1, 2^64), truncations, byte flips and mutated '
+            'fixtures: never a panic, same result class and parse dump as the model.',
+    'note': 'Trusted: Lean kernel; RQ/Model/Parse.lean is parser.rs (compared on every run, full dump); stack depth (parser is loop-based, by reading) and OOM outside the model.'}
+META['C12'] = {'engine': 'rqharness parse + rqmodel', 'design_ref': 'DESIGN.md section 5 C12',
+    'technique': 'Lean 4 proof (parser inverts writer: numbers, names incl. C-string quoting, lines incl. no-newline marker, hunks via the closest-match walk, file headers, header garbage) + differential round trip on the real code',
+    'text': 'Theorem C12_partial (all accepted byte strings except two documented classes, proven false for the full statement by C12_full_false) '
+            'and C12_fixpoint. parse -> write -> parse -> write of the real code on every generated input must preserve kind, names, rename flag, '
+            'modes, hashes, sides, start lines and be a byte fixed point.',
+    'note': 'Trusted: Lean kernel; RQ/Model/{Parse,Write}.lean are parser.rs/writer.rs (compared bytewise on every run). Known findings: hunkless-noop-vanishes, dev-null-named-file.'}
